@@ -5,6 +5,8 @@ import (
 	"go/token"
 	"go/types"
 	"strings"
+
+	"golang.org/x/tools/go/ssa"
 )
 
 // TV is a typed SMT term. Ty is a types.Type or one of the pseudo types below.
@@ -57,7 +59,7 @@ type Env struct {
 	// in loop clauses a name denotes the variable's current value (a phi), not the parameter's entry value
 	preferResolve bool
 	shadowable    map[string]bool
-	inOld    bool
+	inOld         bool
 }
 
 // readWF records that value v of type t was read from the heap in state env.st.
@@ -873,6 +875,36 @@ func (env *Env) evalCall(n *Call) (TV, error) {
 				}
 			}
 		}
+		// an external function that this unit calls somewhere (but not on this path): the types come from the callee's signature
+		if strings.HasPrefix(full, "extern:") && env.fx != nil {
+			if sc := e.P.Contracts.Funcs[full]; sc != nil {
+				if callee := e.findStaticCallee(env.fx.fn, full, map[*ssa.Function]bool{}); callee != nil {
+					want := flattenName(n.Args[1])
+					var ty types.Type
+					if pfx == "arg:" {
+						for i := 0; i < len(callee.Params) && i < len(sc.Params); i++ {
+							if sc.Params[i] == want {
+								ty = callee.Params[i].Type()
+							}
+						}
+					} else {
+						res := callee.Signature.Results()
+						for i := 0; i < res.Len() && i < len(sc.Returns); i++ {
+							if sc.Returns[i] == want {
+								ty = res.At(i).Type()
+							}
+						}
+					}
+					if ty != nil {
+						e.famSort["ghost:"+gk] = e.S.sortOf(ty)
+						e.ghostTy[gk] = ty
+						t := e.declare("ghost:"+gk, e.S.sortOf(ty))
+						e.ghostEntry[gk] = t
+						return TV{t, ty}, nil
+					}
+				}
+			}
+		}
 		// a function value called through `calls v as sig:KEY`: the types come from v's signature
 		if strings.HasPrefix(full, "sig:") && env.fx != nil {
 			if root := env.fx.rootContract(); root != nil {
@@ -1186,4 +1218,35 @@ func sortedTypeIDs(s *sorts) []int {
 		out = append(out, i)
 	}
 	return out
+}
+
+// findStaticCallee: the function with extern key `key` that fn (or one of its closures, or a module function without a
+// contract that it calls) calls statically, if any.
+func (e *enc) findStaticCallee(fn *ssa.Function, key string, seen map[*ssa.Function]bool) *ssa.Function {
+	if fn == nil || seen[fn] {
+		return nil
+	}
+	seen[fn] = true
+	for _, b := range fn.Blocks {
+		for _, in := range b.Instrs {
+			if c, ok := in.(ssa.CallInstruction); ok {
+				if callee := c.Common().StaticCallee(); callee != nil {
+					if externKey(callee) == key {
+						return callee
+					}
+					if k := FuncKey(callee); e.P.Funcs[k] == callee && e.P.Contracts.Funcs[k] == nil {
+						if r := e.findStaticCallee(callee, key, seen); r != nil {
+							return r
+						}
+					}
+				}
+			}
+		}
+	}
+	for _, a := range fn.AnonFuncs {
+		if r := e.findStaticCallee(a, key, seen); r != nil {
+			return r
+		}
+	}
+	return nil
 }
